@@ -399,4 +399,50 @@ def library_outputs_rule(chk):
     r2 = P.call(FILE, "lint", cc)
     chk.ob("C20.H.no-verdict-kept-between-calls", "lint::edit that keeps node and edge counts", r1[0] == "return" and r2[:2] == ("raise", "ValueError"), file=FILE, func="lint",
            fact={"first": str(r1)[:60], "after set_type('o','buf')": str(r2)[:80]}, expect="passes, then ValueError")
+    # ---- the same producers over the repository's OWN Circuit class ("full stack"): what they build goes through circuit.py's
+    # add / connect / relabel / set_type ..., so a defect in one of those primitives that only a producer exposes shows
+    from ..pkgenv import build_full
+    from ..semantic import reinserted as _re
+
+    PFS = Package(repo, full_stack=True)
+
+    def ob_full(key, r, func):
+        nonlocal n
+        if r[0] == "raise" and r[1] == "ValueError":
+            return
+        n += 1
+        if r[0] != "return":
+            chk.ob("C20.L.library-output-lint-clean", key, False, file=FILE, func=func, fact={"problem": "producer raises", "result": str(r)[:140]}, expect="a lint-clean circuit")
+            return
+        c_ = r[1][0] if isinstance(r[1], tuple) else r[1]
+        rl = PFS.call(FILE, "lint", c_)
+        chk.ob("C20.L.library-output-lint-clean", key, rl[0] == "return", file=FILE, func=func, fact={"lint": str(rl)[:200]} if rl[0] != "return" else {}, expect="lint(c) does not raise")
+
+    order_texts = {
+        "use before definition (assign expression after its reader)": "module m (a, b, o, p);\n  input a, b;\n  output o, p;\n  wire w, v;\n  not n0 (v, w);\n  buf b1 (p, w);\n  assign w = a & b;\n  buf b0 (o, v);\nendmodule\n",
+        "declarations last, nested expression": "module m (a, b, c, o);\n  assign o = t ^ c;\n  assign t = ~(a | b) & c;\n  wire t;\n  output o;\n  input a, b, c;\nendmodule\n",
+        "alias chain before its source": "module m (a, o, p);\n  input a;\n  output o, p;\n  wire w;\n  assign o = w;\n  assign p = ~w;\n  assign w = ~a;\nendmodule\n",
+    }
+    for name_, text_ in order_texts.items():
+        try:
+            cf = full_parse(PFS, text_, [])
+            ob_full(f"full stack::full parser::{name_}", ("return", cf), "parse_verilog_netlist")
+        except ParseError as e:
+            ob_full(f"full stack::full parser::{name_}", ("raise", e.kind, str(e)), "parse_verilog_netlist")
+        ob_full(f"full stack::fast parser::{name_}", PFS.call("parsing/fast_verilog.py", "fast_parse_verilog_netlist", text_, []), "fast_parse_verilog_netlist") if "assign o = t ^ c" not in text_ and "assign w = a & b" not in text_ and "~w" not in text_ else None
+    ob_full("full stack::bench reader", PFS.call("io.py", "bench_to_circuit", "INPUT(a)\nINPUT(b)\nOUTPUT(o)\no = NAND(q, b)\nq = DFF(d)\nd = XOR(a, q)\n", "b"), "bench_to_circuit")
+    for k, cm in [(k_, c_) for k_, c_ in deep_circuits()][:4] + [(f"corpus::{k_}", c_) for k_, t_, c_ in corpus("quick", want=("const", "feedthrough", "shared", "chains"))][:8]:
+        if lint_clean(cm) is not None:
+            continue
+        spec = {n_: (cm.type(n_), sorted(cm.fanin(n_))) for n_ in cm.graph._node}
+        try:
+            cf = build_full(PFS, spec, outputs=sorted(cm.outputs()))
+        except ModelRaise:
+            continue
+        ob_full(f"full stack::limit_fanin({k},2)", PFS.call("tx.py", "limit_fanin", cf, 2), "limit_fanin")
+        ob_full(f"full stack::limit_fanout({k},2)", PFS.call("tx.py", "limit_fanout", cf, 2), "limit_fanout")
+        ob_full(f"full stack::ternary({k})", PFS.call("tx.py", "ternary", cf), "ternary")
+        ob_full(f"full stack::miter({k})", PFS.call("tx.py", "miter", cf), "miter")
+        ob_full(f"full stack::relabel({k})", PFS.call("tx.py", "relabel", cf, {x: f"r_{x}" for x in spec}), "relabel")
+        ob_full(f"full stack::strip_io-free copy({k})", PFS.call("tx.py", "subcircuit", cf, list(spec)), "subcircuit")
     chk.floor("library outputs linted", n, 60)
